@@ -32,7 +32,11 @@ import (
 //             round is held the monitor cannot start another round, so the harness decides when
 //             each round completes and what it sees.
 //   "C<id>"   a relayed client connection: the backend answers "B<index>" and keeps the
-//             connection open until the other side closes it.
+//             connection open.  When its read side sees EOF (the client half-closed, or the
+//             processor closed the relay) it keeps "streaming the response": one byte every 2 ms;
+//             the write fails as soon as the processor has closed the socket, which is how the
+//             backend observes that its side of the relay is closed.  HalfClose(backend): the
+//             backend shuts down its write side and keeps reading.
 // Host operations are delivered the way the controller delivers them: fresh host.Host objects
 // through p.OnSvcHostAdd / OnSvcHostRemove / OnSvcAllHostReplace.
 
@@ -51,28 +55,48 @@ type relayEvent struct {
 	token   string // "C<id>" or "" if the connection carried no bytes
 }
 
+// relay is one relayed connection as the backend sees it.
+type relay struct {
+	id int // client id from the token (0: none)
+	c  net.Conn
+
+	mu      sync.Mutex
+	peerEOF bool // read side saw EOF / an error
+	wrShut  bool // the backend shut down its write side (HalfClose backend)
+	closed  bool // the processor closed its side completely
+}
+
+func (r *relay) get() (peerEOF, closed bool) {
+	r.mu.Lock()
+	defer r.mu.Unlock()
+	return r.peerEOF, r.closed
+}
+
 type backend struct {
 	idx  int
 	addr string
 	ln   net.Listener
 	fx   *fixture
 
-	mu   sync.Mutex
-	up   bool
-	held []*probe
+	mu      sync.Mutex
+	up      bool
+	held    []*probe
+	accepts int      // connections accepted (diagnostics)
+	lines   []string // first lines read (diagnostics)
 }
 
 type fixture struct {
 	mu     sync.Mutex
 	relays []relayEvent
 	seq    int
+	byID   map[int]*relay
 	bs     []*backend
 	wg     sync.WaitGroup
 	closed bool
 }
 
 func newFixture(n int) (*fixture, error) {
-	fx := &fixture{}
+	fx := &fixture{byID: map[int]*relay{}}
 	var lns []net.Listener
 	for i := 0; i < n; i++ {
 		ln, err := net.Listen("tcp", "127.0.0.1:0")
@@ -102,6 +126,9 @@ func (b *backend) serve() {
 		if err != nil {
 			return
 		}
+		b.mu.Lock()
+		b.accepts++
+		b.mu.Unlock()
 		go b.handle(c)
 	}
 }
@@ -112,29 +139,88 @@ func (b *backend) handle(c net.Conn) {
 	line, err := rd.ReadString('\n')
 	c.SetReadDeadline(time.Time{})
 	line = strings.TrimSpace(line)
+	b.mu.Lock()
+	if len(b.lines) < 64 {
+		b.lines = append(b.lines, fmt.Sprintf("%q/%v", line, err))
+	}
+	b.mu.Unlock()
 	if line == "HCPING" {
 		b.mu.Lock()
 		b.held = append(b.held, &probe{c: c})
 		b.mu.Unlock()
 		return
 	}
+	rl := &relay{c: c}
+	fmt.Sscanf(line, "C%d", &rl.id)
 	b.fx.mu.Lock()
 	b.fx.seq++
 	b.fx.relays = append(b.fx.relays, relayEvent{seq: b.fx.seq, backend: b.idx, token: line})
+	if rl.id != 0 {
+		b.fx.byID[rl.id] = rl
+	}
 	b.fx.mu.Unlock()
 	if err != nil {
 		c.Close()
 		return
 	}
 	fmt.Fprintf(c, "B%d\n", b.idx)
-	// hold the relay until the other side closes
 	buf := make([]byte, 256)
 	for {
 		if _, err := c.Read(buf); err != nil {
+			break
+		}
+	}
+	rl.mu.Lock()
+	rl.peerEOF = true
+	shut := rl.wrShut
+	rl.mu.Unlock()
+	if shut {
+		// both directions have ended: the processor has closed the relay
+		rl.mu.Lock()
+		rl.closed = true
+		rl.mu.Unlock()
+		c.Close()
+		return
+	}
+	// EOF from the processor: the client half-closed, or the relay was closed.  Keep streaming
+	// the response; the write fails once the processor has closed the socket.
+	for {
+		if _, err := c.Write([]byte("s")); err != nil {
+			rl.mu.Lock()
+			rl.closed = true
+			rl.mu.Unlock()
+			c.Close()
+			return
+		}
+		time.Sleep(2 * time.Millisecond)
+		b.fx.mu.Lock()
+		done := b.fx.closed
+		b.fx.mu.Unlock()
+		if done {
 			c.Close()
 			return
 		}
 	}
+}
+
+// halfClose shuts down the backend's write side of the relay of client id.
+func (fx *fixture) halfClose(id int) error {
+	fx.mu.Lock()
+	rl := fx.byID[id]
+	fx.mu.Unlock()
+	if rl == nil {
+		return fmt.Errorf("no relay of client %d at any backend", id)
+	}
+	rl.mu.Lock()
+	rl.wrShut = true
+	rl.mu.Unlock()
+	return rl.c.(*net.TCPConn).CloseWrite()
+}
+
+func (fx *fixture) relayOf(id int) *relay {
+	fx.mu.Lock()
+	defer fx.mu.Unlock()
+	return fx.byID[id]
 }
 
 func (b *backend) heldCount() int {
@@ -143,23 +229,65 @@ func (b *backend) heldCount() int {
 	return len(b.held)
 }
 
-// release answers (or drops) every held probe according to the scripted state.
-func (b *backend) release() int {
+// take removes and returns the held probes (nothing is answered yet).
+func (b *backend) take() ([]*probe, bool) {
 	b.mu.Lock()
+	defer b.mu.Unlock()
 	held := b.held
 	b.held = nil
-	up := b.up
-	b.mu.Unlock()
+	return held, b.up
+}
+
+func answer(held []*probe, up bool) {
 	for _, p := range held {
 		if up {
 			p.c.Write([]byte("HCPONG\n"))
 		}
 		p.c.Close()
 	}
+}
+
+// release answers (or drops) every held probe of this backend according to the scripted state.
+func (b *backend) release() int {
+	held, up := b.take()
+	answer(held, up)
 	return len(held)
 }
 
+// releaseRound lets the held round complete: the probes of ALL backends are taken first and
+// answered afterwards.  The monitor starts its next round as soon as the last probe of the held
+// round is answered (a tick is usually pending); taking everything before answering anything
+// keeps the probes of that next round apart from the ones of the round being released.
+func (fx *fixture) releaseRound() []int {
+	type taken struct {
+		held []*probe
+		up   bool
+	}
+	all := make([]taken, len(fx.bs))
+	for i, b := range fx.bs {
+		all[i].held, all[i].up = b.take()
+	}
+	var idx []int
+	for i, t := range all {
+		if len(t.held) > 0 {
+			idx = append(idx, fx.bs[i].idx)
+		}
+		answer(t.held, t.up)
+	}
+	return idx
+}
+
 func (fx *fixture) close() {
+	fx.mu.Lock()
+	fx.closed = true
+	rls := []*relay{}
+	for _, r := range fx.byID {
+		rls = append(rls, r)
+	}
+	fx.mu.Unlock()
+	for _, r := range rls {
+		r.c.Close()
+	}
 	for _, b := range fx.bs {
 		b.ln.Close()
 		b.mu.Lock()
@@ -208,6 +336,7 @@ type EStep struct {
 	Stale     []int      `json:"stale"`
 	Probed    []int      `json:"probed"`
 	ID        int        `json:"id"`
+	Side      string     `json:"side"` // HalfClose: "chc" (client) | "bhc" (backend)
 	Chosen    int        `json:"chosen"`
 	Est       bool       `json:"est"`
 	Allowed   []int      `json:"allowed"`
@@ -220,14 +349,16 @@ type EStep struct {
 // EObs is what the real system showed in a step.
 type EObs struct {
 	Op          string `json:"op"`
-	Backend     int    `json:"backend"`                 // Conn: backend that received the connection (0: none)
-	Established bool   `json:"established"`             // Conn: the client got the backend's answer
-	ClientSaw   string `json:"clientSaw,omitempty"`     // Conn: "reply" | "closed" | "timeout"
-	ClosedNow   []int  `json:"closedNow,omitempty"`     // client connections found closed after the step
-	Must        []int  `json:"must,omitempty"`          // connections whose backend address left the set in this step
-	MustOpen    []int  `json:"mustStillOpen,omitempty"` // ... and that were still open at the deadline
+	Backend     int    `json:"backend"`                    // Conn: backend that received the connection (0: none)
+	Established bool   `json:"established"`                // Conn: the client got the backend's answer
+	ClientSaw   string `json:"clientSaw,omitempty"`        // Conn: "reply" | "closed" | "timeout"
+	ClosedNow   []int  `json:"closedNow,omitempty"`        // client connections found closed after the step
+	Must        []int  `json:"must,omitempty"`             // connections whose backend address left the set in this step
+	MustOpen    []int  `json:"mustStillOpen,omitempty"`    // ... and that the client still saw open at the deadline
+	BackendOpen []int  `json:"backendStillOpen,omitempty"` // ... and whose backend side was not closed at the deadline
 	DeadlineMs  int    `json:"deadlineMs,omitempty"`
-	Probes      []int  `json:"probes,omitempty"` // Round: backends whose probe was released
+	Probes      []int  `json:"probes,omitempty"`  // Round: backends whose probe was released
+	Skipped     bool   `json:"skipped,omitempty"` // HalfClose of a connection that is not open in reality
 }
 
 type EResult struct {
@@ -243,11 +374,32 @@ type clientConn struct {
 	c    net.Conn
 	rd   *bufio.Reader
 	back int
+	st   string // "open" | "chc" | "bhc"
 }
 
-// isClosed waits up to d for the connection to be closed by the other side.
+// isClosed waits up to d for the connection to be closed by the processor.
+//
+//	open, chc: the client reads (and discards the backend's stream); EOF or an error means the
+//	           processor closed the connection (the backend never shuts down its write side in
+//	           these states).
+//	bhc:       the client has already read the EOF of the backend's half-close and still owns its
+//	           write side: it writes a byte every millisecond; once the processor has closed the
+//	           socket the write is answered by a reset and the next write fails.
 func (cc *clientConn) isClosed(d time.Duration) bool {
-	cc.c.SetReadDeadline(time.Now().Add(d))
+	dl := time.Now().Add(d)
+	if cc.st == "bhc" {
+		for {
+			cc.c.SetWriteDeadline(time.Now().Add(time.Second))
+			if _, err := cc.c.Write([]byte("p")); err != nil {
+				return true
+			}
+			if time.Now().After(dl) {
+				return false
+			}
+			time.Sleep(time.Millisecond)
+		}
+	}
+	cc.c.SetReadDeadline(dl)
 	buf := make([]byte, 64)
 	for {
 		_, err := cc.c.Read(buf)
@@ -331,7 +483,13 @@ func (r *e2eRun) waitRound(addrs []int) error {
 					got = append(got, b.idx)
 				}
 			}
-			return fmt.Errorf("monitor round did not probe backends %v (probes held at %v)", addrs, got)
+			diag := ""
+			for _, b := range r.fx.bs {
+				b.mu.Lock()
+				diag += fmt.Sprintf(" backend%d: accepts=%d lines=%v;", b.idx, b.accepts, b.lines)
+				b.mu.Unlock()
+			}
+			return fmt.Errorf("monitor round did not probe backends %v (probes held at %v)%s", addrs, got, diag)
 		}
 		time.Sleep(200 * time.Microsecond)
 	}
@@ -381,6 +539,22 @@ func (r *e2eRun) sweep(leaving map[int]bool, o *EObs) {
 			o.ClosedNow = append(o.ClosedNow, id)
 			cc.c.Close()
 			delete(r.clients, id)
+			if mustSet[id] {
+				// the backend must see its side closed as well
+				if rl := r.fx.relayOf(id); rl != nil {
+					dl := time.Now().Add(d)
+					for {
+						if _, closed := rl.get(); closed {
+							break
+						}
+						if time.Now().After(dl) {
+							o.BackendOpen = append(o.BackendOpen, id)
+							break
+						}
+						time.Sleep(time.Millisecond)
+					}
+				}
+			}
 		} else if mustSet[id] {
 			o.MustOpen = append(o.MustOpen, id)
 			if *r.longLeft > 0 {
@@ -463,12 +637,20 @@ func runE2E(id int, policy string, steps []EStep, naddr int, longLeft *int, long
 			b.mu.Lock()
 			b.up = !b.up
 			b.mu.Unlock()
-		case "Round":
-			for _, b := range fx.bs {
-				if b.release() > 0 {
-					o.Probes = append(o.Probes, b.idx)
-				}
+		case "HalfClose":
+			cc := r.clients[s.ID]
+			if cc == nil {
+				// with a non-deterministic policy the real connection may have gone to another backend
+				// than the model's and may have been closed with that backend's host: nothing to do
+				o.Skipped = true
+				break
 			}
+			if err := r.halfClose(cc, s.Side); err != nil {
+				res.Err = fmt.Sprintf("step %d: %v", i, err)
+				return
+			}
+		case "Round":
+			o.Probes = fx.releaseRound()
 			idle = true
 		case "Conn":
 			seq := fx.relaySeq()
@@ -486,7 +668,7 @@ func runE2E(id int, policy string, steps []EStep, naddr int, longLeft *int, long
 				o.ClientSaw = "reply"
 				fmt.Sscanf(line, "B%d", &o.Backend)
 				o.Established = true
-				r.clients[s.ID] = &clientConn{id: s.ID, c: c, rd: rd, back: o.Backend}
+				r.clients[s.ID] = &clientConn{id: s.ID, c: c, rd: rd, back: o.Backend, st: "open"}
 			default:
 				if ne, ok := err.(net.Error); ok && ne.Timeout() {
 					o.ClientSaw = "timeout"
@@ -514,7 +696,7 @@ func runE2E(id int, policy string, steps []EStep, naddr int, longLeft *int, long
 		}
 		// a new round starts at the next tick with the members present then; wait until its
 		// probes are held so that the monitor's snapshot is the one the model has
-		if idle && len(s.SnapAddrs) > 0 && s.Op != "Conn" && s.Op != "Toggle" {
+		if idle && len(s.SnapAddrs) > 0 && s.Op != "Conn" && s.Op != "Toggle" && s.Op != "HalfClose" {
 			if err := r.waitRound(s.SnapAddrs); err != nil {
 				res.Err = fmt.Sprintf("step %d (%s): %v", i, s.Op, err)
 				return
@@ -524,7 +706,7 @@ func runE2E(id int, policy string, steps []EStep, naddr int, longLeft *int, long
 			// nothing left to probe: let the marks of the released round finish (assumption: 30 ms)
 			time.Sleep(30 * time.Millisecond)
 		}
-		if s.Op != "Toggle" {
+		if s.Op != "Toggle" && s.Op != "HalfClose" {
 			// addresses that stop being members by the meaning of the operation (variant independent)
 			leaving := map[int]bool{}
 			if i > 0 {
@@ -543,6 +725,53 @@ func runE2E(id int, policy string, steps []EStep, naddr int, longLeft *int, long
 		res.Obs = append(res.Obs, o)
 	}
 	return
+}
+
+// halfClose shuts down one side's write direction and waits until the processor has relayed it:
+// the other side has seen the EOF, i.e. the corresponding copy loop of HandleConn has ended.
+// A further 5 ms let the processor's goroutines that wait for that loop run (assumption).
+func (r *e2eRun) halfClose(cc *clientConn, side string) error {
+	dl := time.Now().Add(5 * time.Second)
+	switch side {
+	case "chc":
+		if err := cc.c.(*net.TCPConn).CloseWrite(); err != nil {
+			return err
+		}
+		rl := r.fx.relayOf(cc.id)
+		if rl == nil {
+			return fmt.Errorf("no relay of client %d at any backend", cc.id)
+		}
+		for {
+			if eof, _ := rl.get(); eof {
+				break
+			}
+			if time.Now().After(dl) {
+				return fmt.Errorf("client half-close of connection %d did not reach the backend", cc.id)
+			}
+			time.Sleep(200 * time.Microsecond)
+		}
+	case "bhc":
+		if err := r.fx.halfClose(cc.id); err != nil {
+			return err
+		}
+		cc.c.SetReadDeadline(dl)
+		buf := make([]byte, 64)
+		for {
+			_, err := cc.c.Read(buf)
+			if err == nil {
+				continue
+			}
+			if ne, ok := err.(net.Error); ok && ne.Timeout() {
+				return fmt.Errorf("backend half-close of connection %d did not reach the client", cc.id)
+			}
+			break // EOF: the processor half-closed the client socket
+		}
+	default:
+		return fmt.Errorf("unknown side %q", side)
+	}
+	cc.st = side
+	time.Sleep(5 * time.Millisecond)
+	return nil
 }
 
 func waitProxy(addr string, d time.Duration) error {
